@@ -179,9 +179,77 @@ func (oc *obligCtx) paramNonNeg1(p *ssa.Parameter, depth int) bool {
 				}
 			}
 		}
+		// a captured variable of the enclosing function: every value stored in its cell
+		if oc.capturedNonNeg(a, depth) {
+			continue
+		}
 		return false
 	}
 	return true
+}
+
+// capturedNonNeg: v is the load of a variable captured by a closure, and every value the enclosing
+// function stores into that variable is non-negative there.
+func (oc *obligCtx) capturedNonNeg(v ssa.Value, depth int) bool {
+	ld, ok := stripNumConv(v).(*ssa.UnOp)
+	if !ok || ld.Op != token.MUL {
+		return false
+	}
+	fv, ok := ld.X.(*ssa.FreeVar)
+	if !ok {
+		return false
+	}
+	cf := fv.Parent()
+	par := cf.Parent()
+	if par == nil {
+		return false
+	}
+	idx := -1
+	for i, f := range cf.FreeVars {
+		if f == fv {
+			idx = i
+		}
+	}
+	found, all := false, true
+	allInstrs(par, func(in ssa.Instruction) {
+		mc, isMC := in.(*ssa.MakeClosure)
+		if !isMC || mc.Fn != ssa.Value(cf) || idx < 0 || idx >= len(mc.Bindings) {
+			return
+		}
+		cell, isAlloc := mc.Bindings[idx].(*ssa.Alloc)
+		if !isAlloc {
+			all = false
+			return
+		}
+		found = true
+		for _, ref := range *cell.Referrers() {
+			st, isSt := ref.(*ssa.Store)
+			if !isSt || st.Addr != ssa.Value(cell) {
+				continue
+			}
+			f := FactsAt(st)
+			sv := st.Val
+			switch {
+			case rangeCounter(sv) || f.nonNeg(sv):
+			default:
+				okV := false
+				if p, isP := stripNumConv(sv).(*ssa.Parameter); isP && oc.paramNonNeg(p, depth+1) {
+					okV = true
+				}
+				if bo, isB := stripNumConv(sv).(*ssa.BinOp); isB && bo.Op == token.ADD {
+					if k, isC := constInt(bo.Y); isC && k >= 0 {
+						if p, isP := stripNumConv(bo.X).(*ssa.Parameter); isP && oc.paramNonNeg(p, depth+1) {
+							okV = true
+						}
+					}
+				}
+				if !okV {
+					all = false
+				}
+			}
+		}
+	})
+	return found && all
 }
 
 // sortCallback: fn is Less or Swap of a type implementing sort.Interface: its index
